@@ -1354,11 +1354,19 @@ def algorithm_lookup(out: OutputBuffer, alg_names: str) -> int:
     # each key is an alg type that consists of a value (which is itself a
     # dictionary) of alg names. Filter the alg names against the user supplied
     # list of names.
+    # GSS key exchanges are held in the database in wildcard form (i.e.:
+    # 'gss-gex-sha1-*'), since their base64 suffix varies; a concrete name
+    # matches the wildcard entry, as it does in an audit.
+    def gss_wildcard(alg_type: str, alg_name: str) -> str:
+        if alg_type == 'kex' and alg_name.startswith('gss-'):
+            return "%s-*" % alg_name[0:alg_name.rindex('-')]
+        return alg_name
+
     algorithms_dict = {
         outer_k: {
-            inner_k
-            for (inner_k, inner_v) in outer_v.items()
-            if inner_k in algorithm_names
+            alg_name
+            for alg_name in algorithm_names
+            if alg_name in outer_v or gss_wildcard(outer_k, alg_name) in outer_v
         }
         for (outer_k, outer_v) in adb.items()
     }
